@@ -1579,6 +1579,62 @@ pub mod skip {
             Some(states)
         })
     }
+
+    /// `MacroBranch::rewrite` on the first arm of the macro definition that is the first item of
+    /// `src`, with what it works from (see `macros::verif_local_mbody::ArmRun`), and
+    /// `rewrite_macro_def` of the whole definition as `visit_item` calls it.
+    #[derive(Debug, Clone)]
+    pub struct MacroBodyRun {
+        pub has_block_body: bool,
+        pub substs: Vec<(String, String)>,
+        pub as_items: bool,
+        pub snippet: String,
+        pub ranges: Vec<(usize, usize)>,
+        pub body_indent: String,
+        pub arm_indent: String,
+        pub prefix: String,
+        pub arm: Option<String>,
+        pub definition: Option<String>,
+    }
+
+    pub fn macro_body(src: &str, config: &Config) -> Option<MacroBodyRun> {
+        let config = quiet(config);
+        rustc_span::create_session_if_not_set_then(config.edition().into(), |_| {
+            let psess = ParseSess::new(&config).ok()?;
+            let krate = Parser::parse_crate(Input::Text(src.to_owned()), &psess).ok()?;
+            let provider = psess.snippet_provider(krate.spans.inner_span);
+            let visitor = FmtVisitor::from_psess(&psess, &config, &provider, FormatReport::new());
+            let item = krate.items.first()?;
+            let (ident, def) = match item.kind {
+                ast::ItemKind::MacroDef(ident, ref def) => (ident, def),
+                _ => return None,
+            };
+            let context = visitor.get_context();
+            let run = crate::macros::verif_local_mbody::first_arm(&context, visitor.shape(), def)?;
+            let definition = crate::macros::rewrite_macro_def(
+                &context,
+                visitor.shape(),
+                visitor.block_indent,
+                def,
+                ident,
+                &item.vis,
+                item.span,
+            )
+            .ok();
+            Some(MacroBodyRun {
+                has_block_body: run.has_block_body,
+                substs: run.substs,
+                as_items: run.as_items,
+                snippet: run.snippet,
+                ranges: run.ranges,
+                body_indent: run.body_indent,
+                arm_indent: run.arm_indent,
+                prefix: run.prefix,
+                arm: run.arm,
+                definition,
+            })
+        })
+    }
 }
 
 /// Newline conversion (`formatting/newline_style.rs`), trailing-blank removal (`utils.rs`) and
